@@ -148,8 +148,8 @@ def run(ck: common.Check):
         return
 
     # ------------------------------------------------------------------ 2. real implementation run
-    n_procs = ck.n(60, 2000)
-    n_pats = ck.n(36, 60)
+    n_procs = ck.n(50, 2000)
+    n_pats = ck.n(32, 60)
     nav_budget = ck.n(2500, 4000)
     sdir = common.scratch_dir("c16_run")
     out = sdir / "impl.jsonl"
@@ -178,6 +178,9 @@ def run(ck: common.Check):
     # the three known deviations: does Model.impl_quirks still describe the code under test?
     qrec = [r for r in recs if r["t"] == "quirks"]
     model_bits = run_driver(ck, ["(quirks)"], "quirks")[0]
+    if not re.fullmatch(r"[01]{3}", model_bits):
+        ck.broken_obligation("model-driver:quirks", model_bits[:200])
+        model_bits = "111"
     if qrec:
         ck.cov["impl_quirks(stride0,callargs,wcfg)"] = {"implementation": qrec[0]["bits"], "model": model_bits}
         ck.obligation("Model.impl_quirks matches the implementation's probes", qrec[0]["bits"] == model_bits,
@@ -292,6 +295,8 @@ def run(ck: common.Check):
     nviol = {}
     for j, (r, oracle, real) in enumerate(need_class):
         expl = [q for q, o in zip(("100", "010", "001"), outs[3 * j: 3 * j + 3]) if expected_shape(o, r["_many"]) == real]
+        # prefer a deviation the implementation is known to have now (Model.impl_quirks) over a repaired one
+        expl.sort(key=lambda q: 0 if model_bits[q.index("1")] == "1" else 1)
         prefix = QUIRK_KEYS[expl[0]] if len(expl) >= 1 else "C16:find-mismatch:"
         key = prefix + "%s|%s" % (r["api"], r["raw"].replace("\n", "\\n"))
         nviol[prefix] = nviol.get(prefix, 0) + 1
